@@ -250,7 +250,7 @@ class LocalDateTime(metaclass=_LocalDateTimeMeta):
 
         # In Noda Time, they measure the ticks since the BCL epoch here and throw if < 0.
         # This is a bit simpler...
-        if gregorian.year <= datetime.datetime.min.year:
+        if gregorian.year < datetime.datetime.min.year:
             raise RuntimeError("LocalDateTime out of range of datetime")
 
         return datetime.datetime(
